@@ -133,7 +133,7 @@ fn check_lonlat(lon: f64, lat: f64, st: &mut Stats) -> Result<(), String> {
 
 fn lat_strategy() -> BoxedStrategy<f64> {
     prop_oneof![
-        4 => (-HALF_PI..=HALF_PI),
+        4 => -HALF_PI..=HALF_PI,
         3 => (0.0f64..1.0, any::<bool>()).prop_map(|(u, s)| { let d = 10f64.powf(-15.0 + 15.0 * u); let p = (HALF_PI - d).max(0.0); if s { p } else { -p } }),
         2 => (0.0f64..1.0, any::<bool>()).prop_map(|(u, s)| { let d = 10f64.powf(-15.0 + 14.0 * u); if s { d } else { -d } }),
         1 => prop_oneof![Just(0.0), Just(HALF_PI), Just(-HALF_PI), Just(89f64.to_radians()), Just(-89f64.to_radians()), Just(std::f64::consts::FRAC_PI_4)],
